@@ -5,3 +5,8 @@ TESTS = [
       {"checks": 120000, "shards": 8, "timeout": 1500}),
 ]
 ASSUMPTIONS = ["C14(b): LockPile is exercised over instrumented TryLockers; the interleaving of lock operations is generated, the algorithm itself is the real pkg/sync code"]
+TESTS.append(
+    T("vfsdir", "TestC14DirectoryConcurrentStress",
+      {"checks": 1500, "shards": 2, "timeout": 600},
+      {"checks": 20000, "shards": 4, "timeout": 2400}))
+ASSUMPTIONS.append("C14(c): concurrent stress uses the Go scheduler's interleavings (not generated, not replayable bit-for-bit); only a confirmed mutex cycle (two identical goroutine dumps) is a violation, other time-outs are inconclusive")
